@@ -25,6 +25,7 @@ func main() {
 	only := flag.String("rule", "", "run only this rule (debugging)")
 	verbose := flag.Bool("v", false, "print every obligation")
 	list := flag.Bool("list", false, "list properties and their rules")
+	dumpConsts := flag.Bool("dump-consts", false, "print the error-constant table extracted from the source (maintenance)")
 	flag.Parse()
 
 	if t := os.Getenv("VERIF_TIER"); t != "" && !isFlagSet("tier") {
@@ -34,6 +35,15 @@ func main() {
 		for _, p := range rules.PropertyIDs() {
 			fmt.Printf("%s: %s\n", p, strings.Join(rules.Properties[p].Rules, " "))
 		}
+		return
+	}
+	if *dumpConsts {
+		ctx, err := core.Load(*repo)
+		if err != nil {
+			fmt.Fprintln(os.Stderr, err)
+			os.Exit(2)
+		}
+		rules.DumpConsts(ctx)
 		return
 	}
 	spec, ok := rules.Properties[*prop]
